@@ -65,7 +65,8 @@ pub fn prop_mul_c(imp: &dyn PImpl, key: &Key, prop: &str, m: &B, c: &B, k: &B, o
 
 fn enc_of(imp: &dyn PImpl, key: &Key, prop: &str, m: &B, r: &B, out: &mut Out) -> Option<B> {
     let c = imp.encrypt(m, r);
-    expect(out, key, prop, "encrypt_with_r vs closed form", &c, &R::V(key.enc(m, r)));
+    let want = if m < &key.n { R::V(key.enc(m, r)) } else { R::Nothing };
+    expect(out, key, prop, "encrypt_with_r vs closed form", &c, &want);
     c.val().cloned()
 }
 
@@ -96,7 +97,10 @@ fn rand_unit(rng: &mut ChaCha20Rng, key: &Key) -> B {
 fn boundary(rng: &mut ChaCha20Rng, key: &Key) -> (Vec<(B, B)>, Vec<(B, B)>) {
     let n = &key.n;
     let n1 = n - bu(1);
-    let a = rng.gen_biguint_below(n);
+    let mut a = rng.gen_biguint_below(n);
+    if a == bu(0) {
+        a = bu(1); // keeps N - a a plaintext
+    }
     let b = rng.gen_biguint_below(n);
     let adds = vec![
         (a.clone(), n - &a),          // m1 + m2 = N
